@@ -56,6 +56,8 @@ func main() {
 	switch os.Args[1] {
 	case "check":
 		os.Exit(cmdCheck(os.Args[2:]))
+	case "replay":
+		os.Exit(cmdReplay(os.Args[2:]))
 	case "list":
 		specs, err := sym.Discover(filepath.Join(verifHome, "harness"))
 		if err != nil {
@@ -245,6 +247,57 @@ func cmdCheck(args []string) int {
 	writeEvidence(*prop, *tier, seed, results, inconclusive, time.Since(t0), nViol, knownLines, map[string]interface{}{"load_s": loadTime.Seconds(), "replays": validated})
 	fmt.Printf("property %s tier %s: exit %d in %.1fs\n", *prop, *tier, exit, time.Since(t0).Seconds())
 	return exit
+}
+
+// cmdReplay re-runs one counterexample tape natively against the current tree.
+func cmdReplay(args []string) int {
+	fs := flag.NewFlagSet("replay", flag.ExitOnError)
+	prop := fs.String("prop", "", "property id")
+	tapePath := fs.String("tape", "", "tape file")
+	fs.Parse(args)
+	b, err := os.ReadFile(*tapePath)
+	if err != nil {
+		fmt.Fprintln(os.Stderr, err)
+		return 2
+	}
+	var tapes []struct {
+		Harness string `json:"harness"`
+		Tag     string `json:"tag"`
+	}
+	if err := json.Unmarshal(b, &tapes); err != nil || len(tapes) == 0 {
+		fmt.Fprintln(os.Stderr, "bad tape file")
+		return 2
+	}
+	all, _ := sym.Discover(filepath.Join(verifHome, "harness"))
+	var specs []sym.HarnessSpec
+	var target *sym.HarnessSpec
+	for i, s := range all {
+		if s.Prop == *prop {
+			specs = append(specs, s)
+			if s.Name == tapes[0].Harness {
+				target = &all[i]
+			}
+		}
+	}
+	if target == nil {
+		fmt.Fprintln(os.Stderr, "harness not found:", tapes[0].Harness)
+		return 2
+	}
+	outDir := filepath.Join(verifHome, "out", *prop+".replay")
+	os.MkdirAll(outDir, 0o755)
+	ov, err := sym.BuildOverlay(repo, verifHome, specs)
+	if err != nil {
+		fmt.Fprintln(os.Stderr, err)
+		return 2
+	}
+	ovPath, _ := ov.WriteJSON(outDir)
+	out := nativeReplay(*target, ovPath, *tapePath)
+	fmt.Printf("native outcome: %s (expected assert:%s)\n", out, tapes[0].Tag)
+	if out == "assert:"+tapes[0].Tag || strings.HasPrefix(out, "panic:") {
+		fmt.Printf("VIOLATION property=%s replay=%s\n", *prop, *tapePath)
+		return 1
+	}
+	return 0
 }
 
 func firstLine(s string) string {
